@@ -23,7 +23,7 @@ def teardown(_):
 
 
 def gen(rng, tier):
-    n = 90 if tier == "quick" else 3000
+    n = 320 if tier == "quick" else 4000
     for t in range(n):
         ns, nv = rng.randint(2, 8), rng.randint(1, 6)
         if rng.random() < 0.06:
@@ -57,6 +57,20 @@ def gen(rng, tier):
         target_is_hap = rng.random() < 0.5
         target = rng.choice(haps)["id"] if target_is_hap else f"v{rng.randrange(nv)}"
         from_gts = rng.random() < 0.5
+        span = None
+        if nv >= 4 and rng.random() < 0.2:
+            # a target haplotype over four or more variants whose first and last V lines are in place and whose interior
+            # V lines are not in genotype order; everything else that is loaded lies inside it
+            idx = sorted(rng.sample(range(nv), rng.randint(4, nv)))
+            inner = idx[1:-1]
+            while inner == idx[1:-1]:
+                rng.shuffle(inner)
+            span = [idx[0]] + inner + [idx[-1]]
+            haps = [{"id": "H0", "vars": [[f"v{j}", rng.choice(["A", "C"])] for j in span]}]
+            for h in range(rng.randint(1, 2)):
+                sub = rng.sample(span, rng.randint(1, 3))
+                haps.append({"id": f"H{h + 1}", "vars": [[f"v{j}", rng.choice(["A", "C"])] for j in sub]})
+            target, target_is_hap = "H0", True
         ids = None
         if rng.random() < 0.5:
             pool = [f"v{j}" for j in range(nv)] if from_gts else [h["id"] for h in haps]
@@ -67,7 +81,28 @@ def gen(rng, tier):
                 k_un = len([v for v, _ in tv if v not in ids]) if (from_gts and rng.random() < 0.6) else rng.randint(1, 2)
                 for u in range(k_un):
                     ids.insert(rng.randrange(len(ids) + 1), f"unknown{u}")
-        yield {"data": data, "haps": haps, "target": target, "from_gts": from_gts, "ids": ids, "pgen": rng.random() < 0.3, "samples": rng.choice([None, None, "subset"]), "seed": rng.randrange(2**31), "repeat": rng.random() < 0.4, "indexed": rng.random() < 0.3}
+        if span is not None and from_gts and rng.random() < 0.7:
+            ids = [f"v{j}" for j in sorted(span)]  # exactly the target's own variants
+            rng.random() < 0.5 and rng.shuffle(ids)
+        case = {"data": data, "haps": haps, "target": target, "from_gts": from_gts, "ids": ids, "pgen": rng.random() < 0.3, "samples": rng.choice([None, None, "subset"]), "seed": rng.randrange(2**31), "repeat": rng.random() < 0.4, "indexed": rng.random() < 0.3}
+        if nv >= 2 and span is None and rng.random() < 0.2:
+            # the variants lie on two chromosomes, every haplotype on one of them; the .hap file is what concatenating
+            # per-chromosome files gives (H lines of chromosome 1, their V lines, H lines of chromosome 2, their V lines),
+            # indexed as it is
+            half = rng.randint(1, nv - 1)
+            hs = []
+            for h in range(rng.randint(2, 4)):
+                pool = list(range(half)) if (h % 2 == 0) else list(range(half, nv))
+                idx = rng.sample(pool, rng.randint(1, min(3, len(pool))))
+                hs.append({"id": f"H{h}", "vars": [[f"v{j}", rng.choice(["A", "C"])] for j in idx]})
+            case["haps"], case["two_chrom"], case["indexed"] = hs, half, "concat"
+            case["target"] = rng.choice(hs)["id"] if target_is_hap else target
+            if not from_gts:
+                pool = [h["id"] for h in hs]
+                case["ids"] = None if rng.random() < 0.3 else [rng.choice(pool) for _ in range(rng.randint(1, len(pool)))]
+            elif case["ids"] is not None:
+                case["ids"] = [i for i in case["ids"] if not i.startswith("unknown")] or None
+        yield case
 
 
 def impl(case):
@@ -81,25 +116,44 @@ def impl(case):
     d.mkdir(parents=True)
     ns, nv = len(case["data"]), len(case["data"][0])
     samples = [f"s{i}" for i in range(ns)]
-    variants = [(f"v{j}", "1", 10 * (j + 1), ["A", "C"]) for j in range(nv)]
+    half = case.get("two_chrom")
+
+    def loc(j):
+        return ("1", 10 * (j + 1)) if half is None or j < half else ("2", 10 * (j - half + 1))
+
+    variants = [(f"v{j}", loc(j)[0], loc(j)[1], ["A", "C"]) for j in range(nv)]
     data = [[(c[0], c[1], 1) for c in r] for r in case["data"]]
     if case["pgen"]:
         GF.write_pgen(d / "g", samples, variants, data)
         gf = d / "g.pgen"
     else:
-        GF.write_vcf_text(d / "g.vcf", samples, variants, data)
+        GF.write_vcf_text(d / "g.vcf", samples, variants, data, contigs=["1", "2"])
         gf = d / "g.vcf"
+
+    def hline(h):
+        ps = [loc(int(v[0][1:]))[1] for v in h["vars"]]
+        return f"H\t{loc(int(h['vars'][0][0][1:]))[0]}\t{min(ps)}\t{max(ps) + 1}\t{h['id']}\n"
+
+    def vlines(h):
+        return "".join(f"V\t{h['id']}\t{loc(int(vid[1:]))[1]}\t{loc(int(vid[1:]))[1] + 1}\t{vid}\t{a}\n" for vid, a in h["vars"])
+
     with open(d / "h.hap", "w") as f:
-        for h in case["haps"]:
-            st = min(int(v[0][1:]) for v in h["vars"]) * 10 + 10
-            en = max(int(v[0][1:]) for v in h["vars"]) * 10 + 11
-            f.write(f"H\t1\t{st}\t{en}\t{h['id']}\n")
-        if case["repeat"]:
-            f.write("R\t1\t5\t9\tREP1\n")
-        for h in case["haps"]:
-            for vid, a in h["vars"]:
-                p = int(vid[1:]) * 10 + 10
-                f.write(f"V\t{h['id']}\t{p}\t{p+1}\t{vid}\t{a}\n")
+        if case.get("indexed") == "concat":
+            for c in ("1", "2"):
+                mine = sorted((h for h in case["haps"] if loc(int(h["vars"][0][0][1:]))[0] == c), key=lambda h: min(loc(int(v[0][1:]))[1] for v in h["vars"]))
+                for h in mine:
+                    f.write(hline(h))
+                if case["repeat"] and c == "1":
+                    f.write("R\t1\t99995\t99999\tREP1\n")
+                for h in mine:
+                    f.write("".join(sorted(vlines(h).splitlines(True), key=lambda l: int(l.split("\t")[2]))))
+        else:
+            for h in case["haps"]:
+                f.write(hline(h))
+            if case["repeat"]:
+                f.write("R\t1\t5\t9\tREP1\n")
+            for h in case["haps"]:
+                f.write(vlines(h))
     want = None
     if case["samples"]:
         rnd = random.Random(case["seed"])
@@ -110,7 +164,7 @@ def impl(case):
         # the same haplotypes as a sorted, bgzipped and tabix-indexed file (haptools' own `index`, C11)
         from haptools.index import index_haps
 
-        index_haps(d / "h.hap", sort=True, output=d / "hs.hap.gz", log=SD.silent_log())
+        index_haps(d / "h.hap", sort=case["indexed"] != "concat", output=d / "hs.hap.gz", log=SD.silent_log())
         hapfile = d / "hs.hap.gz"
     calc_ld(case["target"], gf, hapfile, samples=want, ids=None if case["ids"] is None else tuple(case["ids"]), from_gts=case["from_gts"], output=out, log=SD.silent_log())
     rows = []
@@ -223,7 +277,7 @@ def oracle(case, obs):
 
 def describe(case, obs):
     tgt_hap = any(h["id"] == case["target"] for h in case["haps"])
-    return [("hap-target" if tgt_hap else "variant-target"), ("from-gts" if case["from_gts"] else "hap-output"), ("ids" if case["ids"] is not None else "no-ids"), ("pgen" if case["pgen"] else "vcf"), ("dup-ids" if case["ids"] and len(set(case["ids"])) < len(case["ids"]) else "uniq-ids"), ("sample-subset" if case["samples"] else "all-samples"), ("indexed-hap.gz" if case.get("indexed") else "plain-hap"), ("some-haplotype-unsorted" if any([int(v[0][1:]) for v in h["vars"]] != sorted(int(v[0][1:]) for v in h["vars"]) for h in case["haps"]) else "haplotypes-sorted")]
+    return [("hap-target" if tgt_hap else "variant-target"), ("from-gts" if case["from_gts"] else "hap-output"), ("ids" if case["ids"] is not None else "no-ids"), ("pgen" if case["pgen"] else "vcf"), ("dup-ids" if case["ids"] and len(set(case["ids"])) < len(case["ids"]) else "uniq-ids"), ("sample-subset" if case["samples"] else "all-samples"), ("indexed-concatenated-hap.gz" if case.get("indexed") == "concat" else "indexed-hap.gz" if case.get("indexed") else "plain-hap"), ("target-interior-permuted" if any(h["id"] == case["target"] and len(h["vars"]) >= 4 and [int(v[0][1:]) for v in h["vars"]] != sorted(int(v[0][1:]) for v in h["vars"]) and int(h["vars"][0][0][1:]) == min(int(v[0][1:]) for v in h["vars"]) and int(h["vars"][-1][0][1:]) == max(int(v[0][1:]) for v in h["vars"]) for h in case["haps"]) else "target-other"), ("some-haplotype-unsorted" if any([int(v[0][1:]) for v in h["vars"]] != sorted(int(v[0][1:]) for v in h["vars"]) for h in case["haps"]) else "haplotypes-sorted")]
 
 
 # ------------------------------------------------------------------ pearson_corr_ld kernel, incl. biobank-size cohorts
